@@ -25,7 +25,7 @@ StepSeq(s, k) == [i \in 1..((Len(s) + k - 1) \div k) |-> s[k * (i - 1) + 1]]
 \* ---- bitenc
 BEExplains(cfg, s, c, r) ==
     CASE c.op = "new"  -> r.st = "ok"
-      [] c.op \in {"push", "push_values", "clear"} -> r.st = "ok"
+      [] c.op \in {"push", "push_values", "clear", "copy"} -> r.st = "ok"   \* copy: clone / clone_from / serde
       [] c.op = "set"  -> r.st = "ok" /\ c.a.i < Len(s)
       [] c.op = "obs"  ->
            /\ r.st = "ok"
@@ -54,7 +54,7 @@ SIExplains(cfg, s, c, r) ==
            IF (IF "wide" \in DOMAIN cfg THEN c.a.v = cfg.smax ELSE c.a.v > 0 /\ c.a.v >= cfg.smax)
            THEN r.st = "panic"                                        \* documented refusal
            ELSE r.st = "ok"
-      [] c.op = "push" -> r.st = "ok"
+      [] c.op \in {"push", "copy"} -> r.st = "ok"
       [] c.op = "set"  -> r.st = "ok" /\ c.a.i < Len(s)
       [] c.op = "obs"  ->
            /\ r.st = "ok"
